@@ -40,6 +40,7 @@ def gen(d, tier):
     if not two:
         cfg["origin"] = sides[0]
     world = World(path_style=(cfg["L"] == "path", cfg["R"] == "path"))
+    world.stale_strict = True       # a stop in the middle of a batch hands the engine only the first of two changes (KF-43 fence)
     acts = []
     emit_base(d, world, acts, d.choice(sides))
     ncycles = d.int(1, 3 if tier == "quick" else 4)
@@ -75,9 +76,13 @@ def gen(d, tier):
     return {"cfg": cfg, "acts": acts, "meta": {"excluded": dict(world.excluded)}}
 
 
+def _winit(world):
+    world.stale_strict = True
+
+
 def in_domain(trace):
     acts = [a for a in trace["acts"] if a[0] not in ("down", "up", "stopstep")]
-    if not envelope_ok(dict(trace, acts=acts)):
+    if not envelope_ok(dict(trace, acts=acts), world_init=_winit):
         return False
     # cursor-losing restarts: only create/write/mkdir in the surrounding windows
     acts = trace["acts"]
